@@ -446,7 +446,11 @@ fn store_scenario(small: bool) -> SimResult {
             }
             v
         };
-        let ad = pool[choose(pool.len())].clone();
+        let mut ad = pool[choose(pool.len())].clone();
+        // half of the time in the form in which dial errors and established connections report it (with /p2p/<peer>)
+        if choose(2) == 0 {
+            ad = ad.with_p2p(p).unwrap_or_else(|a| a);
+        }
         let op = choose(8);
         note_val("op", op as u64);
         let desc;
